@@ -83,10 +83,16 @@ ATOMS = {"-c": "TestcaseChar", "--char": "TestcaseChar", "-l": "TestcaseLine", "
          "-s": "TestcaseSymbol", "--attrs": "TestcaseAttrs"}
 
 
+ABBR_OPTS = {"--strat": "--strategy", "--st": "--strategy", "--strateg": "--strategy", "--testc": "--testcase",
+             "--tempd": "--tempdir", "--cha": "--char", "--chunk": "--chunk-size", "--max-run": "--max-run-time"}
+
+
 def expected(pre_items, name, rest):
     """documented meaning: options before the name take effect, the rest is the test's"""
     cfg = {"strategy": "minimize", "atom": "TestcaseLine", "min": 1, "max": 2 ** 30, "repeat": "last",
            "first": False, "limit": None, "tempdir": None, "testcase": None}
+    ABBR = ABBR_OPTS
+    pre_items = [((ABBR.get(it[0], it[0]),) + tuple(it[1:])) if not isinstance(it, str) else it for it in pre_items]
     for it in pre_items:
         if it[0] in ATOMS:
             cfg["atom"] = ATOMS[it[0]]
@@ -186,6 +192,17 @@ def run(ck: Check):
             for rep in ("always", "last", "never"):
                 cmds.append(((("--min", v, "sep"), ("--max", v, "sep"), ("--repeat", rep, "sep")), "yes.py", ("t.txt",)))
                 cmds.append(((("--repeat", rep, "eq"), ("--max", v, "eq"), ("--min", v, "eq")), "yes.py", ("-c", "t.txt")))
+        # unambiguous abbreviations of Lithium's own options mean the full option (argparse default), for the early
+        # look at --strategy / the atom flag as well as for the real parser
+        for ab, full, val in (("--strat", "--strategy", "check-only"), ("--st", "--strategy", "minimize-around"),
+                              ("--strateg", "--strategy", "check-only"), ("--testc", "--testcase", "other.txt"),
+                              ("--tempd", "--tempdir", "td"), ("--cha", "--char", None), ("--chunk", "--chunk-size", "2"),
+                              ("--max-run", "--max-run-time", "5")):
+            for form in ("sep", "eq"):
+                if val is None:
+                    cmds.append((((ab,),), "yes.py", ("t.txt",)))
+                else:
+                    cmds.append((((ab, val, form),), "yes.py", ("t.txt",)))
         for v in ("0", "1"):
             cmds.append(((("--max-run-time", v, "sep"),), "yes.py", ("t.txt",)))
             cmds.append(((("--strategy", "minimize-around", "eq"), ("--max-run-time", v, "eq")), "yes.py", ("t.txt",)))
@@ -217,6 +234,9 @@ def run(ck: Check):
                     out.append(f"{it[0]}={it[1]}")
             return out + [name] + list(rest)
 
+        # the file reduced is the LAST argument: when it does not exist the run is refused, whatever else is on the line
+        naming += [((), "yes.py", ("t.txt", "missing.txt"), "FileNotFoundError"), ((), "yes.py", ("x", "4", "no-such-file"), "FileNotFoundError"),
+                   ((), "yes.py", ("other.txt", "td"), "IsADirectoryError")]
         all_cases = [(p, n, rest, None) for p, n, rest in cmds] + naming
         argvs = [argv_of(p, n, rest) for p, n, rest, _ in all_cases]
         chunks = [argvs[i::16] for i in range(16)]
@@ -284,6 +304,8 @@ def run(ck: Check):
                 key = None
                 ck.violation(f"command line {argv}: " + "; ".join(bad), {"argv": argv, "got": res, "want": want},
                              key=key)
+            if any((it if isinstance(it, str) else it[0]) in ABBR_OPTS for it in pre):
+                continue    # abbreviations are outside the model's token domain (full option names): oracle only
             cases.append("cli " + " ".join(hexs(a) for a in argv))
             impl.append(f"{res['strategy']} {res['atom']} {res['min']} {res['max']} {res['repeat']} "
                         f"{res['first']} {res['limit']} {res['tempdir']} {res['file']} | "
